@@ -13,8 +13,8 @@ var (
 	roots     = []string{"/users/", "/posts/", "/u/", "/pages/", "/api/", "/s/", "/", "/a/b/", "/users/me/", "/posts/author/"}
 	bareRoots = []string{"abc/", "s-", "top.", "h"}
 	litLeaf   = []string{"a", "b", "c", "d", "e", "f", "g", "ab", "abc", "ac", "author", "new", "me", "log", "posts", "emails", "profile", "h.html", "m-n"}
-	tok1      = []string{`{id}`, `{idx}`, `{name}`, `{-ign}`, `{id:\d+}`, `{uid:\d+}`, `{w:[a-z]+}`, `{id:digit}`, `{w:word}`, `{x:any}`, `{-n:\d+}`, `{-g:digit}`, `{n:[a-z]+}`}
-	tok2      = []string{`{action}`, `{page:\d+}`, `{page:digit}`, `{path}`, `{-skip}`, `{sub:[a-z]+}`, `{act:word}`, `{pg:\d*}`, `{actn}`}
+	tok1      = []string{`{k:qx|zw}`, `{-k:qx|zw}`, `{id}`, `{idx}`, `{name}`, `{-ign}`, `{id:\d+}`, `{uid:\d+}`, `{w:[a-z]+}`, `{id:digit}`, `{w:word}`, `{x:any}`, `{-n:\d+}`, `{-g:digit}`, `{n:[a-z]+}`}
+	tok2      = []string{`{-alt:qx|zw}`, `{action}`, `{page:\d+}`, `{page:digit}`, `{path}`, `{-skip}`, `{sub:[a-z]+}`, `{act:word}`, `{pg:\d*}`, `{actn}`}
 	tails     = []string{"", "", "/", "/log", "/posts", ".html", "-x", "/a", "/ab", "/ac", "/author", "/emails", "_m", "/log/", ".htm"}
 	seps      = []string{"/", "-", ".", "_", "/p/", "/log/"}
 	allICs    = []string{"digit", "word", "any"}
